@@ -990,8 +990,10 @@ static int profile_run(const char *profile, vh_rng_t *rng, uint64_t idx)
      * it reaches known, listed defects so easily that it would starve everything else; likewise
      * ares_set_servers*() from inside a completion callback */
     gen_profile_flags = strcmp(profile, "hostile") == 0 ? GP_NO_CANCEL_IN_CB : strcmp(profile, "hostile-setsrvcb") == 0 ? (GP_NO_CANCEL_IN_CB | GP_SETSRV_IN_CB) : 0;
+    app_setsrv_in_cb_profile = (gen_profile_flags & GP_SETSRV_IN_CB) != 0;
     gen_hostile(rng);
     run_generic(rng);
+    app_setsrv_in_cb_profile = 0;
     hostile_fingerprint();
     return 1;
   }
